@@ -26,3 +26,8 @@ func (mc *Chain) VerifProcessVerifyBlock(ctx context.Context, b *block.Block) er
 func (mc *Chain) VerifHandleVerificationTicketMessage(ctx context.Context, msg *BlockMessage) {
 	mc.handleVerificationTicketMessage(ctx, msg)
 }
+
+// VerifNotarizationProcess calls the unexported notarizationProcess (a Notarization message).
+func (mc *Chain) VerifNotarizationProcess(ctx context.Context, not *Notarization) error {
+	return mc.notarizationProcess(ctx, not)
+}
